@@ -68,7 +68,7 @@ fn jbytes(b: &[u8]) -> String {
 fn short_ty<'tcx>(tcx: TyCtxt<'tcx>, ty: Ty<'tcx>) -> String {
     match ty.kind() {
         ty::Adt(def, args) => {
-            let mut s = tcx.item_name(def.did()).to_string();
+            let mut s = format!("{}", tcx.def_key(def.did()).disambiguated_data.as_sym(true));
             let tys: Vec<String> = args.iter().filter_map(|a| a.as_type()).map(|t| short_ty(tcx, t)).collect();
             if !tys.is_empty() {
                 s.push('<');
@@ -105,7 +105,7 @@ fn impl_name<'tcx>(tcx: TyCtxt<'tcx>, imp: DefId) -> String {
             format!("<{} as {}>", short_ty(tcx, self_ty), t)
         }
         None => match self_ty.kind() {
-            ty::Adt(def, _) => tcx.item_name(def.did()).to_string(),
+            ty::Adt(def, _) => format!("{}", tcx.def_key(def.did()).disambiguated_data.as_sym(true)),
             _ => format!("<{}>", short_ty(tcx, self_ty)),
         },
     }
@@ -1238,7 +1238,9 @@ impl rustc_driver::Callbacks for Cb {
                     }
                     Err(_) => undec("static eval"),
                 }
-            } else if tcx.generics_of(did).requires_monomorphization(tcx) {
+            } else if tcx.generics_of(did).requires_monomorphization(tcx)
+                && !matches!(kind, DefKind::AssocConst { .. })
+            {
                 undec("generic")
             } else {
                 match tcx.const_eval_poly(did) {
